@@ -7,7 +7,7 @@ use proptest::strategy::Strategy;
 use serde::{Deserialize, Serialize};
 use serde_json::json;
 
-pub const RULE: &str = "case = (game, depth 8-11, hash 1/2/3/16 MB, 0-2 earlier searches). The unstopped search is run once with hook H1 counting the polls of the stop flag -> N. Then for every k = 1..N (all k when N <= 24, else 1, 2, N-1, N and 12 generated indices (4 when N > 60)) the search is repeated from an identically prepared state with the flag made to read true from the k-th poll on. Oracle: no panic; the move returned is in the reference legal set; the total number of polls equals k (any node examined after the stop was observed would poll again); every line reported before the stop passes the C08 oracle; the Game passed in is unchanged; a follow-up search (unstopped, depth 3-5, same state, same or successor position) passes the complete C08 oracle and returns a legal move. A second family calls the real Control::stop() from another thread after a generated delay; a third ends the search by an expired fixed move time of 0-20 ms instead of a stop request. A 'first_iteration' part uses capture-storm positions (4-8 queens a side) at depth 1-2, where the first poll already falls inside the first iteration, with every k. Non-trivial = k strictly inside an iteration (not the between-iterations poll); distinct by (case, k).";
+pub const RULE: &str = "case = (game, depth 8-11 under an infinite, a far-away fixed-move-time or a far-away clock time control, hash 1/2/3/16 MB, 0-2 earlier searches). The unstopped search is run once with hook H1 counting the polls of the stop flag -> N. Then for every k = 1..N (all k when N <= 24, else 1, 2, N-1, N and 12 generated indices (4 when N > 60)) the search is repeated from an identically prepared state with the flag made to read true from the k-th poll on. Oracle: no panic; the move returned is in the reference legal set; the total number of polls equals k (any node examined after the stop was observed would poll again); every line reported before the stop passes the C08 oracle; the Game passed in is unchanged; a follow-up search (unstopped, depth 3-5, same state, same or successor position) passes the complete C08 oracle and returns a legal move. A second family calls the real Control::stop() from another thread after a generated delay; a third ends the search by an expired fixed move time of 0-20 ms instead of a stop request. A 'first_iteration' part uses capture-storm positions (4-8 queens a side) at depth 1-2, where the first poll already falls inside the first iteration, with every k. Non-trivial = k strictly inside an iteration (not the between-iterations poll); distinct by (case, k).";
 
 #[derive(Serialize, Deserialize, Clone, Debug)]
 pub enum Case {
@@ -37,6 +37,9 @@ fn from_tape(data: &[u16], tier: Tier) -> Option<(Built, Tape)> {
     let (fen, moves, pos, _) = gen_game_opts(&mut t, 1, 8, false)?; // capture storms have their own part below
     let depth = 8 + t.pick(tier.pick(2, 4)) as u8;
     let main = SearchSpec { fen: fen.clone(), moves: moves.clone(), limit: Limit::Depth(depth) };
+    // the same depth-limited search under each kind of time control (all limits far away): the stop
+    // flag is consulted in the Infinite, ExactTime and Clocks arms alike
+    let flavour = t.pick(4);
     let mut priors = vec![];
     let np = t.pick(3);
     for _ in 0..np {
@@ -63,6 +66,13 @@ fn from_tape(data: &[u16], tier: Tier) -> Option<(Built, Tape)> {
     let mut main = main;
     tame(&mut main);
     tame(&mut followup);
+    if let Limit::Depth(d) = main.limit {
+        main.limit = match flavour {
+            0 => Limit::DepthUnderMoveTime { depth: d, ms: 3_600_000 },
+            1 => Limit::Clocks { wtime: Some(360_000_000), btime: Some(360_000_000), winc: None, binc: None, movestogo: Some(1), depth: Some(d) },
+            _ => Limit::Depth(d),
+        };
+    }
     for p in priors.iter_mut() {
         tame(p);
     }
@@ -104,7 +114,17 @@ fn run_built(b: &Built, ks_explicit: Option<&[u64]>, delays: Option<&[u64]>, mut
         check_reports(&pos, &out.infos, None, st)?;
         return check_followup(b, &mut state, st, &format!("a search ended by movetime {ms}"));
     }
-    let Limit::Depth(depth) = b.main.limit else { return Ok(()) };
+    let depth = match b.main.limit {
+        Limit::Depth(d) => d,
+        Limit::DepthUnderMoveTime { depth, .. } => depth,
+        Limit::Clocks { depth: Some(d), .. } => d,
+        _ => return Ok(()),
+    };
+    st.class(match b.main.limit {
+        Limit::Depth(_) => "time_control:infinite",
+        Limit::DepthUnderMoveTime { .. } => "time_control:fixed_move_time",
+        _ => "time_control:clocks",
+    });
     let ex = |ks: Vec<u64>, ds: Vec<u64>| json!({"Explicit": {"hash_mb": b.hash_mb, "priors": b.priors, "main": b.main, "ks": ks, "followup": b.followup, "stopper_delays_us": ds}});
     // reference run: count polls
     let Some(mut state0) = prepare(b) else { return Ok(()) };
